@@ -29,6 +29,10 @@
 #include "internal/rewind_guard.hpp"
 #include "internal/until.hpp"
 
+#if defined( TAO_PEGTL_VERIF )
+#include "internal/verif_hooks.hpp"
+#endif
+
 namespace TAO_PEGTL_NAMESPACE
 {
    namespace internal
@@ -98,16 +102,28 @@ namespace TAO_PEGTL_NAMESPACE
 
          void bump( const std::size_t in_count = 1 ) noexcept
          {
+#if defined( TAO_PEGTL_VERIF )
+            internal::verif::check_window( 1, this, in_count, std::size_t( m_end - m_current.data ), true );
+            internal::verif::observe_bump( this, in_count );
+#endif
             internal::bump( m_current, in_count, Eol::ch );
          }
 
          void bump_in_this_line( const std::size_t in_count = 1 ) noexcept
          {
+#if defined( TAO_PEGTL_VERIF )
+            internal::verif::check_window( 2, this, in_count, std::size_t( m_end - m_current.data ), true );
+            internal::verif::observe_bump( this, in_count );
+#endif
             internal::bump_in_this_line( m_current, in_count );
          }
 
          void bump_to_next_line( const std::size_t in_count = 1 ) noexcept
          {
+#if defined( TAO_PEGTL_VERIF )
+            internal::verif::check_window( 3, this, in_count, std::size_t( m_end - m_current.data ), true );
+            internal::verif::observe_bump( this, in_count );
+#endif
             internal::bump_to_next_line( m_current, in_count );
          }
 
@@ -190,16 +206,28 @@ namespace TAO_PEGTL_NAMESPACE
 
          void bump( const std::size_t in_count = 1 ) noexcept
          {
+#if defined( TAO_PEGTL_VERIF )
+            internal::verif::check_window( 1, this, in_count, std::size_t( m_end - m_current ), true );
+            internal::verif::observe_bump( this, in_count );
+#endif
             m_current += in_count;
          }
 
          void bump_in_this_line( const std::size_t in_count = 1 ) noexcept
          {
+#if defined( TAO_PEGTL_VERIF )
+            internal::verif::check_window( 2, this, in_count, std::size_t( m_end - m_current ), true );
+            internal::verif::observe_bump( this, in_count );
+#endif
             m_current += in_count;
          }
 
          void bump_to_next_line( const std::size_t in_count = 1 ) noexcept
          {
+#if defined( TAO_PEGTL_VERIF )
+            internal::verif::check_window( 3, this, in_count, std::size_t( m_end - m_current ), true );
+            internal::verif::observe_bump( this, in_count );
+#endif
             m_current += in_count;
          }
 
@@ -297,6 +325,9 @@ namespace TAO_PEGTL_NAMESPACE
 
       [[nodiscard]] char peek_char( const std::size_t offset = 0 ) const noexcept
       {
+#if defined( TAO_PEGTL_VERIF )
+         internal::verif::check_window( 0, this, offset, size(), false );
+#endif
          return this->current()[ offset ];
       }
 
